@@ -1,6 +1,9 @@
 import SwcVerif.Model.Basic
 import SwcVerif.Model.Traverse
 import SwcVerif.Model.Geom
+import SwcVerif.Model.SwcText
+import SwcVerif.Model.Branches
+import SwcVerif.Model.Sort
 
 def dispatch (op : String) (args : List String) : String :=
   match op with
@@ -10,6 +13,12 @@ def dispatch (op : String) (args : List String) : String :=
   | "mat" => Geom.handleMat args
   | "vol" => Geom.handleVol args
   | "voltree" => Geom.handleVolTree args
+  | "branches" | "paths" | "furcs" | "tips" | "brtable" => Branches.handle op args
+  | "sort" => SortM.handle args
+  | "issorted" => SortM.handleIsSorted args
+  | "swcline" => SwcText.handleLine args
+  | "swcread" => SwcText.handleRead args
+  | "swcwrite" => SwcText.handleWrite args
   | _ => "bad-op"
 
 partial def loop (h : IO.FS.Stream) (out : IO.FS.Stream) : IO Unit := do
